@@ -33,6 +33,8 @@ Definition show_ev (e : ev) : string :=
   | EvCleanup l => "cleanup " ++ show_nat l
   | EvCtx ty v => "ctx " ++ show_nat ty ++ " " ++ match v with Some v => show_Z v | None => "none" end
   | EvBatch b => "batch " ++ show_bool b
+  | EvReg l => "reg " ++ show_nat l
+  | EvTrack x => "track " ++ show_nat x
   end.
 
 Fixpoint insert_sorted (x : nat) (l : list nat) : list nat :=
@@ -61,9 +63,26 @@ Definition show_node (s : state) (x id : nat) : string :=
       ++ ":" ++ show_bool (n_dirty nd)
   end.
 
+(* number of live nodes reachable from the root node through [children] *)
+Fixpoint reach (g : nat) (todo : list nat) (s : state) : nat :=
+  match g with
+  | O => 0
+  | S g' =>
+      match todo with
+      | [] => 0
+      | id :: rest =>
+          match nodes s !! id with
+          | None => reach g' rest s
+          | Some nd => S (reach g' (n_children nd ++ rest) s)
+          end
+      end
+  end.
+Definition reachable (s : state) : nat :=
+  reach (2 * next s + 2) [0%nat] s.
+
 Definition snapshot (s : state) : string :=
   let ns := sort_nat (List.map fst (map_to_list (names s))) in
-  "snap n=" ++ show_nat (size (nodes s)) ++ " | "
+  "snap n=" ++ show_nat (size (nodes s)) ++ " r=" ++ show_nat (reachable s) ++ " | "
   ++ join " | " (omap (fun x => (fun id => show_node s x id) <$> (names s !! x)) ns).
 
 Definition clear_log (s : state) : state :=
